@@ -257,6 +257,8 @@ pub mod pool;
 pub mod simd;
 pub mod stats;
 pub mod traits;
+#[cfg(feature = "verif-hooks")]
+pub mod verif_hooks;
 
 // ============================================================================
 // Native-only modules (require tokio::time, filesystem, or other native features)
